@@ -325,7 +325,11 @@ def run(ctx, rep):
                 return 'dyad' if 'dyad' in (a, b) else 'int'
             return None
         if t[0] == 'bin' and t[1] == 'Div':
+            if is_const(t[3]) and isinstance(cval(t[3]), int) and not isinstance(cval(t[3]), bool):
+                return 'int' if exact(t[2]) == 'int' else None        # integer division: an exact integer
             return 'quot' if exact(t[2]) == 'int' and exact(t[3]) == 'int' else None
+        if t[0] == 'bin' and t[1] == 'Rem':
+            return 'int' if exact(t[2]) == 'int' and exact(t[3]) == 'int' else None
         if t[0] == 'un' and t[1] == 'Neg':
             return exact(t[2])
         if t[0] == 'app' and t[1] == 'floor' and len(t[2]) == 1:
